@@ -85,7 +85,7 @@ class GeckoWaterCare(GeckoAutomationFacadeBase):
     def __str__(self):
         if self.active_mode is None:
             return f"{self.name}: Waiting..."
-        if self.active_mode < 0 or self.active_mode > len(
+        if self.active_mode < 0 or self.active_mode >= len(
             GeckoConstants.WATERCARE_MODE_STRING
         ):
             return f"Unknown Water care mode (index:{self.active_mode})"
